@@ -403,7 +403,10 @@ class Gen(object):
         if r < .12:
             return nm
         if r < .27 and long_name:
-            return long_name.lower() if rng.random() < .8 else long_name
+            cand = long_name.lower() if rng.random() < .8 else long_name
+            # a long name that is also an attribute of the class (NK1.name, OBX.value...) is shadowed
+            if cand not in dir(x) and cand not in x.cls_attrs:
+                return cand
         if r < .40 and x.classname == 'Field' and x.name and '_' in nm:
             try:
                 return ('%s_%d' % (x.name, int(nm.rsplit('_', 1)[1]))).lower()
@@ -490,7 +493,17 @@ class Gen(object):
         if kind == 'setindex':
             return ['setindex', x, [name], i, self.value_for(X, row)]
         if kind == 'setlistindex':
-            return ['setlistindex', x, rng.randrange(0, len(X.children) + 1), self.value_for(X, row)]
+            j = rng.randrange(0, len(X.children) + 1)
+            if j < len(X.children):
+                # a value that suits the child actually stored at that position
+                nm = X.children[j].name
+                for cand in self.child_rows(X) + rows:
+                    if cand[0] == nm:
+                        row = cand
+                        break
+                else:
+                    return ['setlistindex', x, j, ['t', rng.choice(['1', '12'])]]
+            return ['setlistindex', x, j, self.value_for(X, row)]
         if kind == 'new':
             if d == 0:
                 return ['newfield', lvl, row[0] if rng.random() < .9 else None, None]
@@ -546,7 +559,10 @@ class Gen(object):
                 return ['toer7', x]
             return ['setdatatype', x, rng.choice(['ST', 'CX', 'HD', 'CE', None, 'varies', 'ID', 'XPN'])]
         if kind == 'setparent':
-            cands = [j for j, y in enumerate(I) if not isinstance(y, Segment)]
+            # only class-correct pairs: a back-pointer cycle (f.parent = f is refused but keeps the
+            # pointer) makes hl7apy recurse forever in encoding_chars, which is outside the model
+            child_cls = {0: Field, 1: Component, 2: SubComponent}.get(d)
+            cands = [j for j, y in enumerate(I) if type(y) is child_cls]
             if not cands:
                 return ['lenlist', x]
             c = rng.choice(cands)
@@ -575,7 +591,8 @@ class Gen(object):
             c = rng.choice(kids)
             cur_row = (c[0], c[1], c[1][3] if len(c[1]) > 3 else None)
             r = rng.random()
-            if r < .15 and cur_row[2]:
+            if r < .15 and cur_row[2] and cur_row[2].lower() not in dir(X) and cur_row[2].lower() not in Element.cls_attrs \
+                    and cur_row[2].lower() not in ('datatype', 'max_length'):
                 names.append(cur_row[2].lower())
             elif r < .30 and depth == 0 and X.classname == 'Segment':
                 # positional path below the field: pid_3_1
